@@ -15,6 +15,7 @@ NOT_DECIDED = ("a CR at the very end of a buffer followed by LF in the next rece
 
 
 def check(ctx):
+    received_bytes_not_rewritten(ctx)
     respondent_tracks_event_source(ctx)
     _http.driver_resumes_every_call(ctx, "T2-driver")
     ctx.rule("T9-eol", "chosen end of line = minimum index over all eols")
@@ -29,12 +30,22 @@ def check(ctx):
     pe = E.own_method("parseEvents")
     calls = [n for n in ast.walk(pe) if isinstance(n, ast.Call) and call_name(n) == "parseLine"]
     ok = bool(calls)
+    hm_ = ctx.repo.mod("aio.http.httping")
+
+    def val(x):
+        # a module-level name bound once to a literal tuple stands for that tuple
+        if isinstance(x, ast.Name):
+            from ..rules import module_assign
+            v = module_assign(hm_, x.id)
+            if isinstance(v, (ast.Tuple, ast.List)):
+                return v
+        return x
     for c in calls:
         e = [k.value for k in c.keywords if k.arg == "eols"]
-        ok = ok and (not e or src(e[0]).replace(" ", "") in ("(CRLF,LF,CR)",))
+        ok = ok and (not e or src(val(e[0])).replace(" ", "") in ("(CRLF,LF,CR)",))
     pl = ctx.fn("aio.http.httping", "parseLine")
     d = pl.args.defaults
-    ok = ok and any(src(x).replace(" ", "") == "(CRLF,LF,CR)" for x in d)
+    ok = ok and any(src(val(x)).replace(" ", "") == "(CRLF,LF,CR)" for x in d)
     ctx.check(ok, "T6-eols", pe, "event lines end at CRLF, LF or CR", "")
     resume_rule(ctx)
     split_crlf(ctx)
@@ -132,3 +143,39 @@ def respondent_tracks_event_source(ctx):
     ctx.check(ok, "T2-sync", f, "Respondent.retry / .leid follow the event source after every parse call",
               "an `id:` or `retry:` line that arrives in a receive which completes no event still changes the stream's last event id / "
               "retry: if the copy is made only when an event was dispatched, the value depends on where the bytes were split")
+
+
+def _eol_rewrite(x):
+    if isinstance(x, ast.Call) and isinstance(x.func, ast.Attribute) and x.func.attr in ("replace", "translate", "splitlines") :
+        if x.func.attr == "splitlines":
+            return True
+        for a in x.args[:2]:
+            t = src(a)
+            if t in ("CRLF", "LF", "CR") or (isinstance(a, ast.Constant) and isinstance(a.value, (bytes, str)) and
+                                             a.value in (b"\r\n", b"\n", b"\r", "\r\n", "\n", "\r")):
+                return True
+    return False
+
+
+def received_bytes_not_rewritten(ctx):
+    """line ends are interpreted by the line parser, which sees the buffer as it was received: rewriting CR / CRLF to LF on
+    intake looks at each receive on its own - a CRLF cut between two receives becomes two line ends"""
+    ctx.rule("T4-intake", "no replace()/splitlines() of line-end bytes in ioflo.aio.http.httping / clienting (received bytes reach the "
+             "parser buffer unchanged)")
+    probe = ast.parse("a = data.replace(CRLF, LF)\nb = d.replace(b'\\r', b'\\n')\nc = k.replace('-', '_')\nd = body.splitlines()")
+    if sum(1 for x in ast.walk(probe) if _eol_rewrite(x)) != 3:
+        raise AnchorError("T4-intake matcher no longer recognises its positive examples")
+    k = 0
+    for modn in ("ioflo.aio.http.httping", "ioflo.aio.http.clienting"):
+        m = ctx.repo.modules.get(modn)
+        if m is None:
+            raise AnchorError("%s not found" % modn)
+        ctx.use(m.tree)
+        for x in ast.walk(m.tree):
+            if isinstance(x, ast.Call):
+                k += 1
+                if _eol_rewrite(x):
+                    ctx.bad("T4-intake", x, "%s" % src(x)[:70],
+                            "normalising line ends per receive turns the two halves of a split CRLF into two line ends: the blank line "
+                            "that results dispatches the event early - the same stream parses differently depending on the split")
+    ctx.floor("T4-intake:calls", k, 100)
